@@ -5,6 +5,7 @@ import (
 	"context"
 	"encoding/json"
 	"fmt"
+	"os"
 	"runtime/debug"
 	"time"
 
@@ -24,7 +25,22 @@ func init() { hlib.Register("shfast", shfastEngine) }
 var fastEnv = expand.ListEnviron("PATH=/usr/local/sbin:/usr/local/bin:/usr/sbin:/usr/bin:/sbin:/bin",
 	"HOME=/nonexistent", "LC_ALL=C.UTF-8")
 
+// procDir is one scratch directory per harness process (scripts of C23 write their input to a
+// file "f" in it before reading it back).
+var procDir string
+
 func runFast(src []byte) (res hlib.RunResult) {
+	if procDir == "" {
+		base := os.Getenv("VERIF_SCRATCH")
+		if base == "" {
+			base = os.TempDir()
+		}
+		d, err := os.MkdirTemp(base, "fast-")
+		if err != nil {
+			panic(err)
+		}
+		procDir = d
+	}
 	p := syntax.NewParser(syntax.Variant(syntax.LangBash))
 	file, err := p.Parse(bytes.NewReader(src), "")
 	if err != nil {
@@ -33,7 +49,7 @@ func runFast(src []byte) (res hlib.RunResult) {
 		return res
 	}
 	var out, errb bytes.Buffer
-	r, err := interp.New(interp.StdIO(nil, &out, &errb), interp.Env(fastEnv), interp.Params("--"))
+	r, err := interp.New(interp.StdIO(nil, &out, &errb), interp.Env(fastEnv), interp.Params("--"), interp.Dir(procDir))
 	if err != nil {
 		res.RunError = "New: " + err.Error()
 		res.Status = -2
